@@ -79,6 +79,8 @@ def _build_data(t, ns, npts, none_at, kind, shift=0):
             ys = []
             for i in range(npts):
                 y = VALS[(s * 3 + i + shift) % len(VALS)]
+                if i == none_at:
+                    y = None  # a gap in an XY / bubble series: the point is left out, the count and the later points are not
                 if t in BUBBLE_TYPES:
                     ser.add_data_point(float(10 * s + i), y, 1.0 + i)
                 else:
